@@ -13,7 +13,7 @@
    repaired: detached heap-push goroutines overtaken by shutdown ("fix: heap pushes
    never overtaken...") and bars stranded in width sync after a render error ("fix: a
    render error no longer strands bars..."). *)
-From MPB Require Import Base BaseProofs BarState Container ContainerProofs ContainerLife ContainerProgress ContainerMeasure ContainerMatrix Sync SyncProofs GenChecks WaitGroup WaitGroupProofs.
+From MPB Require Import Base BaseProofs BarState Container ContainerProofs ContainerLife ContainerProgress ContainerMeasure ContainerMatrix Sync SyncProofs GenChecks GenWaitGroup WaitGroup WaitGroupProofs.
 From MPB.gen Require Import GenApi.
 From Coq Require Import String.
 Open Scope string_scope.
